@@ -141,3 +141,74 @@ Proof.
   - rewrite Q2R_div by exact Hn. rewrite huber_grad_Q_R, Q2R_minus. reflexivity.
   - rewrite Q2R_div by exact Hn. rewrite Q2R_minus. reflexivity.
 Qed.
+
+(* ---------- model mutation score: the remaining Q helpers are pinned to closed forms / R definitions ---------- *)
+Lemma qsum_R l : Q2R (qsum l) = LossCommon.sumR (map Q2R l).
+Proof.
+  unfold qsum, LossCommon.sumR. induction l as [|a t IH]; cbn [fold_right map]; [apply Q2R_0|].
+  rewrite (Qeq_eqR _ _ (Qred_correct _)), Q2R_plus, IH. reflexivity.
+Qed.
+
+Lemma qlen_R (l : list Q) : Q2R (qlen l) = INR (length l).
+Proof. unfold qlen, Q2R. cbn. rewrite Rinv_1, Rmult_1_r. rewrite <- INR_IZR_INZ. reflexivity. Qed.
+
+Lemma qmean_R l : l <> [] -> Q2R (qmean l) = meanR (map Q2R l).
+Proof.
+  intros H. unfold qmean, meanR. rewrite (Qeq_eqR _ _ (Qred_correct _)).
+  assert (Hn : ~ (qlen l == 0)%Q).
+  { unfold qlen. destruct l; [congruence|]. cbn [length]. unfold Qeq. cbn. lia. }
+  rewrite Q2R_div by exact Hn. rewrite qsum_R, qlen_R, map_length. reflexivity.
+Qed.
+
+Local Open Scope Q_scope.
+(* progress_remaining and the scheduled learning rate *)
+Lemma progress_lr_spec n total lr0 :
+  progress_Q n total == Qmax 0 (1 - n / total) /\
+  lr_Q true lr0 n total == lr0 * Qmax 0 (1 - n / total) /\ lr_Q false lr0 n total == lr0 /\
+  clipped_Q lr0 n total == clip_coef_Q lr0 n * total.
+Proof. unfold lr_Q, progress_Q, clipped_Q. repeat split; reflexivity. Qed.
+
+Example progress_lr_examples :
+  progress_Q 5 20 == 3 # 4 /\ progress_Q 30 20 == 0 /\ progress_Q 0 20 == 1 /\
+  lr_Q true (1 # 1000) 5 20 == 3 # 4000 /\ lr_Q false (1 # 1000) 5 20 == 1 # 1000 /\
+  qsum [1; 2; 3 # 2] == 9 # 2 /\ qmean [1; 2; 3] == 2.
+Proof. vm_compute. repeat split; reflexivity. Qed.
+
+(* loss VALUES of the batch twins, with the per-sample term spelled out *)
+Lemma twin_loss_values ys qcols alpha lps rows gamma rs ds nrows qs :
+  fst (sac_critic_Q ys qcols) == (1 # 2) * qsum (map (fun col => qmean (qmap2 (fun q y => (q - y) * (q - y)) col ys)) qcols) /\
+  fst (td3_critic_Q ys qcols) == qsum (map (fun col => qmean (qmap2 (fun q y => (q - y) * (q - y)) col ys)) qcols) /\
+  fst (sac_actor_Q alpha lps rows) == qmean (qmap2 (fun lp m => alpha * lp - m) lps (map qmin_list rows)) /\
+  fst (snd (dqn_batch_Q gamma rs ds nrows qs)) == qmean (qmap2 (fun q y => huber_Q (q - y)) qs (fst (dqn_batch_Q gamma rs ds nrows qs))).
+Proof.
+  unfold sac_critic_Q, td3_critic_Q, sac_actor_Q, dqn_batch_Q. cbn [fst snd]. repeat split; try reflexivity.
+  apply Qred_correct.
+Qed.
+
+(* argmin mask: 1 at the first entry equal to the minimum, 0 elsewhere; nothing once found *)
+Lemma argmin_mask_found m row : argmin_mask m row true = map (fun _ => 0) row.
+Proof. induction row as [|x t IH]; cbn [argmin_mask map negb andb]; [reflexivity | rewrite IH; reflexivity]. Qed.
+
+Example argmin_mask_examples :
+  argmin_mask 2 [3; 2; 2; 5] false = [0; 1; 0; 0] /\ argmin_mask 7 [7] false = [1] /\
+  snd (snd (sac_actor_Q (1 # 2) [1; 1] [[3; 2]; [1; 4]])) = [[0; -(1 # 2)]; [-(1 # 2); 0]] /\
+  fst (sac_actor_Q (1 # 2) [1; 3] [[3; 2]; [1; 4]]) == -(1 # 2) /\
+  fst (sac_critic_Q [1; 2] [[2; 4]; [1; 2]]) == 5 # 4 /\ fst (td3_critic_Q [1; 2] [[2; 4]; [1; 2]]) == 5 # 2 /\
+  snd (sac_critic_Q [1; 2] [[2; 4]]) = [[1 # 2; 1]].
+Proof. vm_compute. repeat split; reflexivity. Qed.
+
+Lemma sac_learned_spec a i : sac_learned (EntFixed a) = false /\ sac_learned (EntAuto i) = true.
+Proof. split; reflexivity. Qed.
+
+Local Open Scope R_scope.
+(* the per-sample squared error of the critic twins is the model's sq_err; the actor term is the model's actor term *)
+Lemma critic_actor_terms_R q y alpha lp m :
+  Q2R ((q - y) * (q - y)) = sq_err (Q2R y) (Q2R q) /\
+  Q2R ((1 # 2) * ((q - y) * (q - y))) = sac_critic_term (Q2R y) (Q2R q) /\
+  Q2R ((q - y) * (q - y)) = td3_critic_term (Q2R y) (Q2R q) /\
+  Q2R (alpha * lp - m) = Q2R alpha * Q2R lp - Q2R m.
+Proof.
+  unfold sac_critic_term, td3_critic_term, sq_err.
+  rewrite !Q2R_mult, !Q2R_minus, Q2R_mult. replace (Q2R (1 # 2)) with (1 / 2) by (unfold Q2R; cbn; lra).
+  repeat split; cbn [pow]; lra.
+Qed.
